@@ -3,6 +3,7 @@
 // methods of the contract-carrying trait declarations, generic in the reader and
 // the writer, for every n (unbounded).
 use vstd::prelude::*;
+use vstd::arithmetic::power2::*;
 
 verus! {
 
